@@ -83,7 +83,7 @@ func runC14(tier, replay string) {
 		vs = keep
 	}
 	// the fixture universe gets a struct with an unexported field and a named array
-	src := universeSrc + "type Hidden struct{ x int }\ntype MyArr [2]int\n"
+	src := universeSrc + "type Hidden struct{ x int }\ntype MyArr [2]int\ntype Big struct{ v int }\nfunc Big_Init__0(x int) Big { return Big{x} }\n"
 	w, err := newTWorldFrom(src)
 	if err != nil {
 		run.Infra(err)
@@ -96,6 +96,8 @@ func runC14(tier, replay string) {
 	ti := types.Typ[types.Int]
 	terr := types.Universe.Lookup("error").Type()
 	pkg.NewVar(token.NoPos, terr, "gerr")
+	pkg.Import("u") // lets the builder discover the fixture's implicit-conversion function Big_Init__0
+	bigT := w.Pkg.Scope().Lookup("Big").Type()
 	type obs struct {
 		reported  string // "" ok
 		buildFail map[string]string
@@ -120,6 +122,21 @@ func runC14(tier, replay string) {
 			}()
 			f()
 		}
+		// history before the users: the zero value of T goes through operand-rewriting matchers once
+		// (implicit conversion int -> Big, the ~[]T builtin append); later zero values must be unaffected
+		try("pre", func() {
+			if b, ok := T.(*types.Basic); ok && b.Kind() == types.Int {
+				pkg.NewFunc(nil, fmt.Sprintf("pre%d", i), nil, nil, false).BodyStart(pkg)
+				cb.NewVarStart(bigT, "b").ZeroLit(T).EndInit(1)
+				cb.End()
+			}
+			if sl, ok := T.Underlying().(*types.Slice); ok && types.Identical(sl.Elem(), ti) {
+				pkg.NewFunc(nil, fmt.Sprintf("pre%d", i), nil, nil, false).BodyStart(pkg)
+				cb.Val(pkg.Builtin().Ref("append")).ZeroLit(T).Val(1).Call(2).EndStmt()
+				cb.End()
+			}
+		})
+		delete(o.buildFail, "pre")
 		// direct: x := zero ; var y T = zero
 		try("ZeroLit", func() {
 			pkg.NewFunc(nil, fmt.Sprintf("z%d", i), nil, nil, false).BodyStart(pkg)
@@ -145,6 +162,23 @@ func runC14(tier, replay string) {
 		try("ReturnErr", func() {
 			res := types.NewTuple(types.NewParam(token.NoPos, pkg.Types, "", T), types.NewParam(token.NoPos, pkg.Types, "", terr))
 			pkg.NewFunc(nil, fmt.Sprintf("r%d", i), nil, res, false).BodyStart(pkg)
+			cb.Val(pkg.Types.Scope().Lookup("gerr")).ReturnErr(false)
+			cb.End()
+		})
+		// ReturnErr(true) inside an inline closure called from a func literal whose results differ from the
+		// enclosing named function's: the padding must be the zero value of the *literal's* result type
+		try("ReturnErr-outer", func() {
+			res := types.NewTuple(types.NewParam(token.NoPos, pkg.Types, "", types.Typ[types.String]), types.NewParam(token.NoPos, pkg.Types, "", terr))
+			pkg.NewFunc(nil, fmt.Sprintf("q%d", i), nil, res, false).BodyStart(pkg)
+			lres := types.NewTuple(types.NewParam(token.NoPos, pkg.Types, "", T), types.NewParam(token.NoPos, pkg.Types, "", terr))
+			cb.DefineVarStart(token.NoPos, "f")
+			cb.NewClosure(nil, lres, false).BodyStart(pkg)
+			cb.CallInlineClosureStart(types.NewSignatureType(nil, nil, nil, nil, nil, false), 0, false)
+			cb.Val(pkg.Types.Scope().Lookup("gerr")).ReturnErr(true)
+			cb.End() // inline closure
+			cb.Val(pkg.Types.Scope().Lookup("gerr")).ReturnErr(false)
+			cb.End() // func literal
+			cb.EndInit(1)
 			cb.Val(pkg.Types.Scope().Lookup("gerr")).ReturnErr(false)
 			cb.End()
 		})
@@ -243,6 +277,7 @@ func runC14(tier, replay string) {
 		check("T()", fmt.Sprintf("c%d", i), true)
 		check("ReturnErr", fmt.Sprintf("r%d", i), false)
 		check("optional-argument", fmt.Sprintf("k%d", i), false)
+		check("ReturnErr-outer", fmt.Sprintf("q%d", i), false)
 	}
 	if len(vs) > 10 {
 		run.Sample(map[string]any{"type": vs[7].T.Src(), "implementation_form": vs[7].Impl, "demanded_forms": vs[7].Demanded, "model_predicts_inferred_ok": vs[7].ImplInferredOK})
